@@ -13,10 +13,12 @@ values.  This file only fixes the **conventions** of the Go API (package `numct`
 * byte strings are big-endian; `Int.Bytes` is sign-magnitude (`00`/`01` prefix), two's complement on
   `announced+1` bits rounded up to bytes;
 
-and gives the algorithms whose results are compared: `powMod` (square-and-multiply), `invMod`
-(extended Euclid), `isqrt`, `isQR`/`sqrtMod` (Euler criterion, Tonelli–Shanks), `jacobi` (the binary
-Kronecker algorithm of `nt/jacobi_purego.go`, with the *signed* reduction of a negative numerator),
-`crt2`, Miller–Rabin.  Everything is structural recursion on fuel so that `Props/C17.lean` can reason
+and gives the algorithms whose results are compared: `powMod` (square-and-multiply), `powModI` (signed
+exponent), `invMod` (extended Euclid), `gcdBin`/`lcmBin` (the binary gcd of `numct/internal/gcd.go` round by
+round, `numct.LCM`), `tdivFromAbs`/`edivFromAbs` (the magnitude-and-sign derivations of `numct.Int.Div` /
+`EuclideanDiv`), `ratFloor`/`ratCeil`, `symMod`, `isqrt`, `isQR`/`sqrtMod` (Euler criterion, Tonelli–Shanks),
+`jacobi`/`jacobiChecked` (the binary Kronecker algorithm of `nt/jacobi_purego.go`, with the *signed*
+reduction of a negative numerator, and its even-denominator guard), `crt2`, Miller–Rabin.  Everything is structural recursion on fuel so that `Props/C17.lean` can reason
 about the very definitions the driver executes.
 -/
 namespace BronVerif.BigNum
@@ -37,6 +39,29 @@ def bitLen (n : Nat) : Nat := if n = 0 then 0 else n.log2 + 1
 def tdivmod (a b : Int) : Int × Int := (Int.tdiv a b, Int.tmod a b)
 /-- Euclidean division (Go `Int.EuclideanDiv`): `0 ≤ r < |b|` -/
 def edivmod (a b : Int) : Int × Int := (a / b, a % b)
+
+/-- the way `numct.Int.Div` computes the truncated division: divide the magnitudes, then give the quotient
+the sign `sign a ⊕ sign b` and the remainder the sign of `a` -/
+def tdivFromAbs (a b : Int) : Int × Int :=
+  let q : Int := ((a.natAbs / b.natAbs : Nat) : Int)
+  let r : Int := ((a.natAbs % b.natAbs : Nat) : Int)
+  (if decide (a < 0) != decide (b < 0) then -q else q, if a < 0 then -r else r)
+
+/-- the way `numct.Int.EuclideanDiv` derives the Euclidean division from the division of the magnitudes
+(`sa`, `sb` the signs, `z` = remainder of the magnitudes is zero) -/
+def edivFromAbs (a b : Int) : Int × Int :=
+  let qq : Int := ((a.natAbs / b.natAbs : Nat) : Int)
+  let rr : Int := ((a.natAbs % b.natAbs : Nat) : Int)
+  let qa : Int := if ¬ a < 0 then qq else if rr = 0 then -qq else -qq - 1
+  let r : Int := if ¬ a < 0 then rr else if rr = 0 then 0 else (b.natAbs : Int) - rr
+  (if b < 0 then -qa else qa, r)
+
+/-- `num.Rat.Floor` / `Ceil` of `a / d` (`d > 0`): Euclidean quotient, plus one when the remainder is not zero -/
+def ratFloor (a : Int) (d : Nat) : Int := (edivFromAbs a d).1
+def ratCeil (a : Int) (d : Nat) : Int := if (edivFromAbs a d).2 = 0 then (edivFromAbs a d).1 else (edivFromAbs a d).1 + 1
+
+/-- `Modulus.ModSymmetric`: the representative of `x mod m` in `[-m/2, m/2)` -/
+def symMod (x : Int) (m : Nat) : Int := let r := x % (m : Int); if 2 * r ≥ m then r - m else r
 
 /-! ### modular exponentiation -/
 
@@ -65,6 +90,40 @@ def invMod (a m : Nat) : Option Nat :=
   let r := xgcdAux (m + 1) (m : Int) ((a % m : Nat) : Int) 0 1
   if r.1 = 1 then some (r.2 % (m : Int)).toNat else none
 
+/-- `x^e mod m` for a signed exponent (`ModExpI`, `Zn.ExpI`): a negative exponent is the power of the
+inverse, undefined (`none`) when `x` is not a unit; modulo 1 everything is 0 -/
+def powModI (x : Nat) (e : Int) (m : Nat) : Option Nat :=
+  if e ≥ 0 then some (powMod x e.toNat m) else
+  if m = 1 then some 0 else
+  (invMod x m).map fun xi => powMod xi e.natAbs m
+
+/-! ### gcd and lcm: the binary (Stein) algorithm of `numct/internal/gcd.go`, `numct.LCM` -/
+
+/-- one round of `internal.GCD` on `(u, v, shift)`: halve the even ones (doubling `shift` when both are),
+order them so that `u ≤ v`, subtract when both are odd -/
+def gcdStep (u v sh : Nat) : Nat × Nat × Nat :=
+  let u1 := if u % 2 = 0 then u / 2 else u
+  let v1 := if v % 2 = 0 then v / 2 else v
+  let sh1 := if u % 2 = 0 ∧ v % 2 = 0 then 2 * sh else sh
+  let u2 := if v1 < u1 then v1 else u1
+  let v2 := if v1 < u1 then u1 else v1
+  let v3 := if u2 % 2 = 1 ∧ v2 % 2 = 1 then v2 - u2 else v2
+  (u2, v3, sh1)
+
+def gcdLoop : Nat → Nat → Nat → Nat → Nat × Nat × Nat
+  | 0, u, v, sh => (u, v, sh)
+  | n + 1, u, v, sh => let r := gcdStep u v sh; gcdLoop n r.1 r.2.1 r.2.2
+
+/-- `internal.GCD` at capacity `cap = max` of the announced lengths: `2·cap` rounds on the operands
+truncated to `cap` bits, result `v · shift` on `cap` bits.  `Props.C17.gcd_eq`: this is `Nat.gcd`, for
+every capacity at least the true lengths. -/
+def gcdBin (cap x y : Nat) : Nat :=
+  let r := gcdLoop (2 * cap) (x % 2 ^ cap) (y % 2 ^ cap) 1
+  (r.2.1 * r.2.2) % 2 ^ cap
+
+/-- `numct.LCM`: `0` when an operand is `0`, else `a·b / gcd(a, b)` -/
+def lcmBin (cap a b : Nat) : Nat := if a = 0 ∨ b = 0 then 0 else a * b / gcdBin cap a b
+
 /-! ### integer square root -/
 
 def isqrtAux : Nat → Nat → Nat → Nat
@@ -73,8 +132,11 @@ def isqrtAux : Nat → Nat → Nat → Nat
     let y := (x + n / x) / 2
     if y < x then isqrtAux fuel n y else x
 
-/-- floor of the square root (Newton iteration from above) -/
-def isqrt (n : Nat) : Nat := if n = 0 then 0 else isqrtAux (bitLen n + 4) n (2 ^ ((bitLen n + 1) / 2))
+/-- floor of the square root (Newton iteration from above, started at `2^⌈bitLen n / 2⌉ > √n`).
+The fuel is the start value itself (every productive round lowers the guess by at least one; the loop
+stops long before, after `O(log n)` rounds): `Props.C17.isqrt_spec`. -/
+def isqrt (n : Nat) : Nat :=
+  if n = 0 then 0 else isqrtAux (2 ^ ((bitLen n + 1) / 2) + 1) n (2 ^ ((bitLen n + 1) / 2))
 
 /-- `some r` with `r * r = n` for perfect squares -/
 def sqrtExact? (n : Nat) : Option Nat := let r := isqrt n; if r * r = n then some r else none
@@ -110,7 +172,7 @@ def tsLoop : Nat → Nat → Nat → Nat → Nat → Nat → Nat
 def sqrtCandidate (a p : Nat) : Nat :=
   if p % 4 = 3 then powMod a ((p + 1) / 4) p else
   let sq := twoAdic (bitLen p) (p - 1)
-  let z := findNonResidue 400 p 2
+  let z := findNonResidue p p 2   -- fuel `p`: the search stops at the least non-residue ≥ 2
   tsLoop (sq.1 + 1) p sq.1 (powMod z sq.2 p) (powMod a sq.2 p) (powMod a ((sq.2 + 1) / 2) p)
 
 /-- a root is only ever returned after squaring it back (as `modSqrtPrime` does) -/
@@ -141,6 +203,9 @@ def jacobiLoop : Nat → Nat → Nat → Int → Int
 def jacobi (x : Int) (y : Nat) : Int :=
   let a : Nat := if x < 0 then (x % (y : Int)).toNat else x.toNat
   jacobiLoop (a + 1) a y 1
+
+/-- `nt.Jacobi` with its guard: an even `y` is refused (`y` is a `NatPlus`, so `y = 0` cannot be passed) -/
+def jacobiChecked (x : Int) (y : Nat) : Option Int := if y % 2 = 0 then none else some (jacobi x y)
 
 /-- the purego variant that reduces `|x|` instead of `x` (the defect of DESIGN §9(a)) -/
 def jacobiAbsVariant (x : Int) (y : Nat) : Int :=
